@@ -129,13 +129,13 @@ func (m *ValueMap) Load(key string) (value *VMValue, ok bool) {
 }
 
 func (m *ValueMap) Length() int {
-	read, _ := m.read.Load().(readOnlyValueMap)
-	if read.amended {
-		m.mu.Lock()
-		defer m.mu.Unlock()
-		return len(m.dirty)
-	}
-	return len(read.m)
+	// 只统计仍然存活的键: 已删除但尚未清理的条目(p为nil/expunged)仍留在read/dirty表中，不能直接取表长
+	n := 0
+	m.Range(func(key string, value *VMValue) bool {
+		n++
+		return true
+	})
+	return n
 }
 
 func (m *ValueMap) Clear() {
